@@ -40,6 +40,12 @@ class Path:
                 cs.append((cond, lab))
         self.conds = cs
 
+    @classmethod
+    def make(cls, conds, ret, blocks=(), calls=(), diverges=False):
+        q = cls.__new__(cls)
+        q.raw, q.conds, q.ret, q.blocks, q.calls, q.diverges = None, list(conds), ret, list(blocks), list(calls), diverges
+        return q
+
     def key(self):
         return (tuple((str(c), str(l)) for c, l in self.conds), str(self.ret), self.diverges)
 
@@ -67,6 +73,69 @@ def paths(fn, max_paths=4000):
         seen.add(k)
         out.append(q)
     return out
+
+
+def _subst_params(g, args):
+    names = {}
+    for i in range(min(g.arg_count, len(args))):
+        nm = g.locals[i + 1][1]
+        if nm:
+            names[nm] = args[i]
+        names[("idx", i)] = args[i]
+
+    def f(y):
+        if y.k == "param":
+            if y.a[1] and y.a[1] in names:
+                return names[y.a[1]]
+            if ("idx", y.a[0]) in names:
+                return names[("idx", y.a[0])]
+        return None
+    return lambda e: rebuild(e, f)
+
+
+def paths_inlined(prog, fn, inline_re, depth=2, max_paths=4000):
+    """paths(fn) in which a TAIL call (the returned value, possibly under Ok(..)/`?`) to a local function whose def path
+    matches inline_re is replaced by that function's own decision table: its path conditions and results with the
+    parameters substituted by the caller's argument expressions. So a fact such as 'the sign of the result follows
+    comparison X' is established the same way whether the selecting branch lives in fn or in a private helper it
+    forwards to. Non-tail calls are left alone (they stay opaque atoms)."""
+    out, seen = [], set()
+    for p in paths(fn, max_paths=max_paths):
+        for q in _expand_tail(prog, p, inline_re, depth, max_paths):
+            k = q.key()
+            if k not in seen:
+                seen.add(k)
+                out.append(q)
+    return out
+
+
+def _expand_tail(prog, p, inline_re, depth, max_paths):
+    if depth <= 0 or p.diverges or p.ret is None:
+        return [p]
+    core = peel(p.ret)
+    cs = callsite(core)
+    if core.k != "call" or cs is None:
+        return [p]
+    gs = [g for g in prog.callees(cs) if re.search(inline_re, g.id)]
+    if len(gs) != 1:
+        return [p]
+    g = gs[0]
+    sub = _subst_params(g, list(core.a[1]))
+    res = []
+    for hp in paths_inlined(prog, g, inline_re, depth - 1, max_paths):
+        if hp.diverges:
+            continue
+        conds = list(p.conds) + [(sub(c), l) for c, l in hp.conds]
+        # drop combinations that contradict themselves on the same boolean condition
+        seen_b, ok = {}, True
+        for c, l in conds:
+            if isinstance(l, bool):
+                if seen_b.setdefault(str(c), l) != l:
+                    ok = False
+                    break
+        if ok:
+            res.append(Path.make(conds, sub(hp.ret), p.blocks, p.calls))
+    return res or [p]
 
 
 def retkind(e):
@@ -255,10 +324,12 @@ def eval_cond(cond, lab, atomize, ranks, bools, ignore=None):
     raise OutOfFragment("condition outside the fragment: %s" % s)
 
 
-def finite_eval(fn, atomize, names, bools=(), ignore=None, constraint=None, max_paths=4000):
+def finite_eval(fn, atomize, names, bools=(), ignore=None, constraint=None, max_paths=4000, prog=None, inline=None):
     """For every weak order of `names` and valuation of `bools` (satisfying `constraint(ranks, bools)`), the list of
-    paths whose conditions all hold. Yields (ranks, boolvals, [Path])."""
-    ps = [p for p in paths(fn, max_paths=max_paths) if not p.diverges]
+    paths whose conditions all hold. Yields (ranks, boolvals, [Path]). With prog+inline (regex on def paths) tail calls
+    to matching local helpers are expanded into the helper's own paths (see paths_inlined)."""
+    src = paths_inlined(prog, fn, inline, max_paths=max_paths) if (prog is not None and inline) else paths(fn, max_paths=max_paths)
+    ps = [p for p in src if not p.diverges]
     for ranks in weak_orders(names):
         for bv in itertools.product([False, True], repeat=len(bools)):
             bd = dict(zip(bools, bv))
